@@ -33,6 +33,7 @@ type Item struct {
 	FollowingSymbol string // The next expected symbol after the item has been recognised
 	Len             int    // the number of symbols making up the body
 	str             string
+	key             string // identifies the item within an item set: production, position of • and following symbol
 }
 
 // following symbol: the symbol expected after this item has been reduced.
@@ -64,6 +65,7 @@ func NewItem(prodIdx int, prod *ast.SyntaxProd, pos int, followingSymbol string)
 		item.ExpectedSymbol = ""
 	}
 	item.str = item.getString()
+	item.key = fmt.Sprintf("%d.%d %s", prodIdx, pos, followingSymbol)
 	return item
 }
 
